@@ -43,7 +43,10 @@ func outcomeText(out outcome, names []string) string {
 func c14Program(r *rng) (text, query string, names []string) {
 	n := 3 + r.intn(6)
 	tag := fmt.Sprintf("t%d", r.intn(1000000))
-	switch r.intn(8) {
+	switch r.intn(9) {
+	case 8: // floats through every writer and both number conversions
+		return "sq(X, Y) :- Y is X * 1.5e10 + 0.25.\n",
+			fmt.Sprintf("findall(F, (between(1, %d, I), sq(I, F)), L), write(L), nl, writeq(L), print(L), write_canonical(L), number_codes(X, \"1.0e20\"), writeq(X), L = [F1|_], number_codes(F1, Cs), atom_codes(A, Cs), number_chars(F1, Ch) .", n*6), []string{"L", "X", "A", "Ch"}
 	case 0:
 		return "nrev([], []).\nnrev([H|T], R) :- nrev(T, RT), append(RT, [H], R).\nrange(N, N, [N]) :- !.\nrange(I, N, [I|T]) :- I < N, J is I + 1, range(J, N, T).\n",
 			fmt.Sprintf("range(1, %d, L), nrev(L, R), write(R) .", n*4), []string{"R"}
@@ -81,7 +84,9 @@ func c14RunProgram(pr c14prog, sink *bytes.Buffer) string {
 	wall, cancel := context.WithTimeout(context.Background(), 20*time.Second)
 	defer cancel()
 	out := runQueryCtx(wall, p, 4, pr.names, pr.query)
-	return outcomeText(out, pr.names) + " | " + sink.String()
+	// every interpreter also formats numbers of each kind through each writer
+	out2 := runQueryCtx(wall, p, 1, []string{"F", "A"}, "F is 7.0 / 2, write([F, 1.0e20, -0.5, 12345678901234567890.0]), writeq(F), print(- F), number_codes(F, Cs), atom_codes(A, Cs), write_canonical([A, 33, \"s\"]) .")
+	return outcomeText(out, pr.names) + " | " + outcomeText(out2, []string{"F", "A"}) + " | " + sink.String()
 }
 
 type c14pair struct{ name, change, observe string }
